@@ -419,7 +419,7 @@ func (t *tr) checkFrame(kind string) {
 	locs := t.modLocs(con.clauses("modifies"), sc)
 	var hs []*Var
 	for v := range t.touched {
-		if v.Heap && v != t.allocTop {
+		if v.Heap && v != t.allocTop && v.Name != "GV$ctxClock" {
 			hs = append(hs, v)
 		}
 	}
